@@ -179,7 +179,7 @@ def check(inputs, book):
                  "enclosed_probability": p_in, "grid_total": total, "fm": fm, "runtime_warning": bool(msgs)})
 
 
-def check_history(inputs, book):
+def check_history(inputs, book, prop="C02", clause=None):
     """a second (and third) contour computed from the SAME model object gives what a freshly built model gives:
     nothing computed for an earlier contour may leak into a later one"""
     from virocon import HighestDensityContour
@@ -206,9 +206,9 @@ def check_history(inputs, book):
             same = f1 == f2 and c1.shape == c2.shape and (c1.dtype == object or np.array_equal(c1, c2))
             if not same:
                 bad.append(f"contour {k + 1} (alpha={alphas[k]:.4g}) of the re-used model: fm {f1!r} / {c1.shape} points, fresh model: fm {f2!r} / {c2.shape} points")
-        book.ev(grp, not bad, f"C02/{grp}/{tag}", CLAUSES[tag], f"[{inputs.get('label')}] " + "; ".join(bad), inputs)
+        book.ev(grp, not bad, f"{prop}/{grp}/{tag}", clause or CLAUSES[tag], f"[{inputs.get('label')}] " + "; ".join(bad), inputs)
     except Exception:
-        book.ev(grp, False, f"C02/{grp}/{tag}", CLAUSES[tag], f"[{inputs.get('label')}] raised: " + A.last_tb_line(), inputs)
+        book.ev(grp, False, f"{prop}/{grp}/{tag}", clause or CLAUSES[tag], f"[{inputs.get('label')}] raised: " + A.last_tb_line(), inputs)
 
 
 def check_exact_limit(seed, book, n_rep):
